@@ -51,6 +51,23 @@ def build_layouts(root, fmt="fb", compression=""):
     C.fill(d2, range(80, 81), "train", rel="a/b/c")
     out["deepening"] = (root / "deepening", {"train": [60, 61, 62, 70, 71,
                                                         80]})
+    # one multi-writer call whose writers each fill two splits (argument
+    # order must hold in both)
+    d3 = C.mk_dataset(root / "multi2", fmt, compression, eps=2)
+
+    def feed2(filler, groups):
+        with filler as f:
+            for sp, ids in groups.items():
+                for i in ids:
+                    f.write_example(values=C.example(i), split=sp)
+    d3.write_multiprocessing(
+        feed_writer=feed2, single_process=True, consistency_check=False,
+        custom_arguments=[({"train": [100 + 10 * w, 101 + 10 * w, 102 + 10 * w],
+                            "test": [200 + 10 * w, 201 + 10 * w]},)
+                          for w in range(3)])
+    out["multi2"] = (root / "multi2", {
+        "train": [100 + 10 * w + j for w in range(3) for j in range(3)],
+        "test": [200 + 10 * w + j for w in range(3) for j in range(2)]})
     out["nested"] = (root / "nested", {
         "train": [0, 1, 2, 10, 11, 12, 20, 30, 31, 32, 33, 40, 41, 42, 43,
                   44], "holdout": [50, 51]})
@@ -186,6 +203,27 @@ def check_exactly_once_interfaces(ctx):
             finally:
                 os.sched_setaffinity(0, allowed)
         n_eval += env_n
+        # thorough tier: a consumer that pauses for 12 s in the middle of a
+        # shuffled concurrent pass still gets every example exactly once
+        if bad is None and tier != "quick":
+            import time as _t
+            root = tmp / "pause"
+            dp = C.mk_dataset(root, "fb", "", eps=2)
+            C.fill(dp, range(0, 60), "train")
+            dp = Dataset(root)
+            n_eval += 1
+            got = []
+            for e in dp.as_numpy_iterator_concurrent(
+                    split="train", repeat=False, shuffle=4,
+                    file_parallelism=3):
+                got.append(C.ex_id(e))
+                if len(got) == 5:
+                    _t.sleep(12.0)
+            if collections.Counter(got) != collections.Counter(range(60)):
+                bad = dict(layout="30 shards", interface="concurrent",
+                           shuffle=4, file_parallelism=3,
+                           consumer_pause_s=12.0, delivered=len(got),
+                           expected=60)
     res.append(C.result(
         "one pass == multiset written (all interfaces, layouts, shuffle, "
         "file_parallelism, one usable CPU / default parallelism); "
